@@ -19,7 +19,7 @@ def periodic_systematic(closed=True, seed=0):
     axes with pairwise different end-cell ratios) as closed transport problems with divergence-free velocities"""
     import random as _r
     out = []
-    for base in opsdrive.periodic_systematic_configs(False, seed):
+    for base in opsdrive.periodic_systematic_configs(False, seed)[::3]:
         cls = base["cls"]
         pa = [a for a in range(drive.dim(cls)) if any(base["bc"][s]["periodic"] for s in SIDES[a])]
         rng = _r.Random(hash((seed, cls, tuple(pa))) & 0xffffffff)
